@@ -47,6 +47,9 @@ ASSUMPTIONS = [
     "unchanged, dictionary = quantizer(get_folded_weights())'",
     "quantized_relu_po2(negative_slope != 0) is not generated as a weight "
     "quantizer (the dictionary has no sign entry for it by design)",
+    "pooling layers: the entry must carry pool_area, mult_factor = 1/pool_area "
+    "and q_mult_factor = average_quantizer(1/pool_area) (1/pool_area without a "
+    "quantizer), compared exactly",
 ]
 BUDGET_S = {"quick": 55, "thorough": 780}
 REQUIRED_LABELS = {
@@ -57,7 +60,8 @@ REQUIRED_LABELS = {
               "L:QBatchNormalization", "L:QSeparableConv2D", "L:QConv1D",
               "L:QSimpleRNN", "L:QLSTM", "L:QGRU", "L:QScaleShift",
               "L:QSeparableConv1D", "folded_layer", "bn_inverse_quantizer",
-              "frozen_export", "canonical", "hyp"],
+              "frozen_export", "canonical", "hyp", "pool_entry_no_quantizer",
+              "binary_use_01"],
     "thorough": ["export", "export2", "predict", "freeze", "di_model", "dd_model",
                  "rel:po2", "rel:relu_po2", "rel:auto_po2",
                  "rel:auto_po2_scale_ne_1", "rel:plain", "bn_fused",
@@ -146,6 +150,20 @@ def lsig(layer):
   return out
 
 
+def culprit_fields(q):
+  """Signature fields describing why a quantizer may fail to be idempotent."""
+  a = getattr(q, "alpha", None)
+  if isinstance(a, (int, float)) and not isinstance(a, bool):
+    ca = "1" if a == 1 else "const!=1"
+  else:
+    ca = str(a)
+  out = {"quantizer": qname(q), "culprit_alpha": ca}
+  if qname(q) == "binary":
+    # {0,1} codes: the stored code 0 is re-quantized as "non-negative" -> 1
+    out["use_01"] = bool(getattr(q, "use_01", False))
+  return out
+
+
 def non_fixed_point(model):
   """First (layer, slot) whose stored weight is not a fixed point of its own
   quantizer - the reason a re-quantization changes values."""
@@ -162,12 +180,7 @@ def non_fixed_point(model):
       except Exception:  # pylint: disable=broad-except
         same = True
       if not same:
-        a = getattr(q, "alpha", None)
-        if isinstance(a, (int, float)) and not isinstance(a, bool):
-          ca = "1" if a == 1 else "const!=1"
-        else:
-          ca = str(a)
-        return dict(lsig(layer), slot=slot, quantizer=qname(q), culprit_alpha=ca)
+        return dict(lsig(layer), slot=slot, **culprit_fields(q))
   return {"layer": None}
 
 
@@ -313,10 +326,8 @@ def check_entry(layer, roles, entry, stored, scales_exp, labels):
     if name in ("quantized_po2", "quantized_relu_po2"):
       labels.add("rel:po2" if name == "quantized_po2" else "rel:relu_po2")
       if name == "quantized_po2":
-        # signs is a list parallel to weights; the exporter appends nothing in
-        # its auto_po2 branch, so an auto_po2 quantizer *before* this weight
-        # shifts the list (signs[k] then belongs to another weight)
-        if signs is None or after_auto or k >= len(signs) or np.size(
+        # signs is a list parallel to weights: signs[k] belongs to weights[k]
+        if signs is None or k >= len(signs) or np.size(
             _np(signs[k])) != st.size:
           fails.append(("po2_relation", dict(sig, relation="signs_aligned",
                                              after_auto_po2=after_auto),
@@ -575,6 +586,27 @@ def do_export(model, x, state, labels):
         fse = {k: _np(q.scale) for k, _, q in froles
                if qname(q) == "quantized_bits" and getattr(q, "alpha", None) == "auto_po2"}
         fails += check_entry(layer, froles, entry, fstored, fse, labels)
+      if cls in ("QAveragePooling2D", "QGlobalAveragePooling2D"):
+        # documented entry of a pooling layer: the factor the layer applies
+        if cls == "QAveragePooling2D":
+          ps = layer.pool_size
+          area = ps * ps if isinstance(ps, int) else int(np.prod(ps))
+        else:
+          shp = layer.input_shape
+          area = int(shp[1] * shp[2])
+        aq = layer.average_quantizer_internal
+        labels.add("pool_entry" if aq is not None else "pool_entry_no_quantizer")
+        want = 1.0 / area if aq is None else float(np.asarray(_np(aq(1.0 / area))).reshape(-1)[0])
+        got = entry.get("q_mult_factor")
+        ok = (got is not None and entry.get("pool_area") == area and
+              entry.get("mult_factor") == 1.0 / area and
+              float(np.asarray(_np(got)).reshape(-1)[0]) == want)
+        if not ok:
+          fails.append(("pool_entry",
+                        {"layer": cls, "average_quantizer": qname(aq)},
+                        "pool_area=%r mult_factor=%r q_mult_factor=%r, expected "
+                        "%r, %r, %r" % (entry.get("pool_area"), entry.get("mult_factor"),
+                                        got, area, 1.0 / area, want)))
       continue
     # (a) quantizer applied exactly once to the previous weights
     for i, slot, q in roles:
@@ -643,10 +675,7 @@ def do_export(model, x, state, labels):
         nfp = {}
         for i, slot, q in (weight_roles(bl) or []):
           if not _eq(prev[bl.name][i], bl.get_weights()[i]):
-            a = getattr(q, "alpha", None)
-            nfp = {"slot": slot, "quantizer": qname(q),
-                   "culprit_alpha": ("1" if a == 1 else "const!=1") if isinstance(
-                       a, (int, float)) and not isinstance(a, bool) else str(a)}
+            nfp = dict(culprit_fields(q), slot=slot)
             break
         nfps[bl.name] = nfp
       if changed:
@@ -760,6 +789,9 @@ def run_history(case, labels):
     return fails, info
   info["built"] = True
   info["has_q"] = any(q is not None for _, _, q in model_weight_quantizers(model))
+  if any(qname(q) == "binary" and getattr(q, "use_01", False)
+         for _, _, q in model_weight_quantizers(model)):
+    labels.add("binary_use_01")
   state = {"last_pred": None, "last_export": None}
   for k, step in enumerate(case["steps"]):
     if step == "predict":
